@@ -15,9 +15,12 @@ import (
 	"context"
 	"fmt"
 	"math/rand"
+	"os"
 	"sort"
 	"strconv"
 	"strings"
+	"sync"
+	"sync/atomic"
 
 	"bngverif/hx"
 
@@ -39,6 +42,8 @@ var cfgs = []cfg{
 	{1, 2, 1, 3},
 	{4093, 4094, 4093, 4094},
 	{100, 102, 5, 6},
+	{100, 101, 12, 10},   // empty C-TAG range
+	{101, 100, 10, 12},   // empty S-TAG range
 	{65534, 65535, 1, 2}, // ranges ending at 65535: the uint16 loop counters wrap (finding KF-vlan-u16-wrap)
 	{1, 1, 65534, 65535},
 }
@@ -64,7 +69,15 @@ func (c cfg) randTag(r *rand.Rand) int {
 	case 3:
 		return 65535
 	}
-	return clamp(c.sS + r.Intn(c.sE-c.sS+1))
+	return clamp(c.sS + r.Intn(span(c.sS, c.sE)))
+}
+
+// span is the size of [lo, hi] for the random generators (an empty range still yields nearby values)
+func span(lo, hi int) int {
+	if hi < lo {
+		return 2
+	}
+	return hi - lo + 1
 }
 
 func (c cfg) randLoad(r *rand.Rand, ntes int) string {
@@ -74,8 +87,8 @@ func (c cfg) randLoad(r *rand.Rand, ntes int) string {
 	}
 	var parts []string
 	for i := 0; i < n; i++ {
-		s := c.sS + r.Intn(c.sE-c.sS+1)
-		ct := c.cS + r.Intn(c.cE-c.cS+1)
+		s := c.sS + r.Intn(span(c.sS, c.sE))
+		ct := c.cS + r.Intn(span(c.cS, c.cE))
 		switch r.Intn(14) {
 		case 0:
 			s = 0
@@ -113,14 +126,29 @@ func (c cfg) randOp(r *rand.Rand, ntes int) string {
 	}
 }
 
+// genStress emits the concurrency sequences (only when C20_STRESS is set; the check runs them on a -race build).
+func genStress(r *rand.Rand, tier string, emit func([]string)) {
+	n := 20
+	if tier == "thorough" {
+		n = 200
+	}
+	for i := 0; i < n; i++ {
+		emit([]string{"new 100 102 10 13", fmt.Sprintf("stress %d 8 200", r.Int63n(1<<31))})
+	}
+}
+
 func (comp) Gen(r *rand.Rand, tier string, emit func([]string)) {
+	if os.Getenv("C20_STRESS") != "" {
+		genStress(r, tier, emit)
+		return
+	}
 	n, nLong := 4000, 10
 	if tier == "thorough" {
 		n, nLong = 50000, 100
 	}
 	for i := 0; i < n; i++ {
 		c := cfgs[r.Intn(len(cfgs))]
-		capacity := (c.sE - c.sS + 1) * (c.cE - c.cS + 1)
+		capacity := span(c.sS, c.sE) * span(c.cS, c.cE)
 		ntes := 2 + r.Intn(capacity+2)
 		seq := []string{c.newOp()}
 		for j, l := 0, 3+r.Intn(30); j < l; j++ {
@@ -264,8 +292,54 @@ func (r *run) Do(op string) string {
 		return fmt.Sprintf("%d %d", st.TotalAllocations, st.STagsInUse)
 	case "dump":
 		return r.dump()
+	case "stress":
+		seed, _ := strconv.ParseInt(f[1], 10, 64)
+		g, _ := strconv.Atoi(f[2])
+		n, _ := strconv.Atoi(f[3])
+		return r.stress(seed, g, n)
 	}
 	return "badop"
+}
+
+// stress runs g goroutines of n random operations each on the shared allocator (NTEs n1…n10, tags of the
+// configured 3 x 4 range) and then prints the in-goroutine anomaly count and the full listing of both indexes.
+// The outcome depends on the schedule; it is judged by the monitor only (no pair twice, reverse = inverse of
+// forward, everything in range).
+func (r *run) stress(seed int64, g, n int) string {
+	var anomalies int64
+	var wg sync.WaitGroup
+	for i := 1; i <= 10; i++ {
+		r.seen[i] = true
+	}
+	for w := 0; w < g; w++ {
+		wg.Add(1)
+		go func(w int) {
+			defer wg.Done()
+			rr := rand.New(rand.NewSource(seed + int64(w)))
+			for j := 0; j < n; j++ {
+				id := fmt.Sprintf("n%d", 1+rr.Intn(10))
+				switch rr.Intn(6) {
+				case 0, 1:
+					if al, err := r.a.Allocate(id); err == nil && (al.STag < 100 || al.STag > 102 || al.CTag < 10 || al.CTag > 13) {
+						atomic.AddInt64(&anomalies, 1)
+					}
+				case 2:
+					t := uint16(100 + rr.Intn(3))
+					if al, err := r.a.AllocateWithSTag(id, t); err == nil && (al.STag != t || al.CTag < 10 || al.CTag > 13) {
+						atomic.AddInt64(&anomalies, 1)
+					}
+				case 3:
+					r.a.Release(id)
+				case 4:
+					r.a.Get(id)
+				case 5:
+					_ = r.a.LoadFromStore(context.Background(), []*nexus.NTE{{ID: id, STag: uint16(100 + rr.Intn(3)), CTag: uint16(10 + rr.Intn(4))}})
+				}
+			}
+		}(w)
+	}
+	wg.Wait()
+	return fmt.Sprintf("anomalies %d %s", anomalies, r.dump())
 }
 
 func (r *run) dump() string {
